@@ -6,9 +6,13 @@ pub mod c02;
 pub mod c03;
 pub mod c04;
 pub mod c05;
+pub mod c06;
 pub mod c07;
 pub mod c15;
 pub mod c11;
+pub mod c12;
+pub mod c13;
+pub mod c14;
 
 pub fn run(ctx: &'static Ctx) {
     match ctx.property.as_str() {
@@ -17,9 +21,13 @@ pub fn run(ctx: &'static Ctx) {
         "C03" => c03::run(ctx),
         "C04" => c04::run(ctx),
         "C05" => c05::run(ctx),
+        "C06" => c06::run(ctx),
         "C07" => c07::run(ctx),
         "C15" => c15::run(ctx),
         "C11" => c11::run(ctx),
+        "C12" => c12::run(ctx),
+        "C13" => c13::run(ctx),
+        "C14" => c14::run(ctx),
         p => crate::core::machinery_panic(&format!("no driver for {}", p)),
     }
 }
@@ -48,9 +56,13 @@ pub fn replay(prop: &str, case: &Value) -> Verdict {
         "C03" => c03::replay(case),
         "C04" => c04::replay(case),
         "C05" => c05::replay(case),
+        "C06" => c06::replay(case),
         "C07" => c07::replay(case),
         "C15" => c15::replay(case),
         "C11" => c11::replay(case),
+        "C12" => c12::replay(case),
+        "C13" => c13::replay(case),
+        "C14" => c14::replay(case),
         p => crate::core::machinery_panic(&format!("no replay for {}", p)),
     }
 }
